@@ -84,6 +84,16 @@ type Config struct {
 	Offset    time.Duration
 	KeepTrace bool // keep the whole decision trace (replay files); else last 4096 decisions
 	Fair      int  // consecutive default steps before a forced round-robin switch; 0 = 2000
+	Watch     []string // substrings of yield sites whose visits are recorded (Sim.Watched)
+}
+
+// WatchEv is one recorded visit of a watched yield site: the task resumed
+// from that site at that step.
+type WatchEv struct {
+	Task int
+	Name string
+	Site string
+	Step int
 }
 
 // Sim is one simulated execution.
@@ -114,7 +124,11 @@ type Sim struct {
 	Notes   []string
 	closed  bool
 	stuckAt string
+	watched []WatchEv
 }
+
+// Watched returns the recorded visits of watched sites.
+func (s *Sim) Watched() []WatchEv { return s.watched }
 
 var active atomic.Pointer[Sim]
 
@@ -624,6 +638,12 @@ func (s *Sim) Run(until func() bool) RunResult {
 const bubbleEpochMs = 946684800000 // 2000-01-01T00:00:00Z, the synctest bubble epoch
 
 func (s *Sim) record(e Event) {
+	for _, w := range s.cfg.Watch {
+		if strings.Contains(e.Site, w) {
+			s.watched = append(s.watched, WatchEv{Task: e.Task, Name: e.Name, Site: e.Site, Step: e.Step})
+			break
+		}
+	}
 	// hash
 	h := s.hash
 	h = (h ^ uint64(uint32(e.Task+2))) * 1099511628211
